@@ -201,6 +201,7 @@ static int URI_FUNC(AddBaseUriImpl)(URI_TYPE(Uri) * absDest,
 					if (!URI_FUNC(FixAmbiguity)(absDest, memory)) {
 						return URI_ERROR_MALLOC;
 					}
+					URI_FUNC(FixEmptyTrailSegment)(absDest, memory);
 	/* [05/32]		T.query = R.query; */
 					absDest->query = relSource->query;
 	/* [06/32]	else */
